@@ -300,6 +300,35 @@ func registerVerif() {
 		}
 		return &IfaceV{T: st, V: v}
 	}
+	// verifInitMaps(ptr): every nil map field of the struct ptr points to becomes an empty map
+	// (what a constructor bypassed by the harness would have done)
+	intrinsics["verifInitMaps"] = func(m *Machine, th *Thread, fn *ssa.Function, a []Value, site ssa.Instruction) Value {
+		iv := a[0].(*IfaceV)
+		p, ok := iv.V.(*Ptr)
+		if !ok || p.Obj == nil {
+			panic(m.unsupported("verifInitMaps needs a non-nil struct pointer"))
+		}
+		pt, ok := iv.T.Underlying().(*types.Pointer)
+		if !ok {
+			panic(m.unsupported("verifInitMaps: not a pointer: %v", iv.T))
+		}
+		st, ok := pt.Elem().Underlying().(*types.Struct)
+		if !ok {
+			panic(m.unsupported("verifInitMaps: not a struct pointer: %v", iv.T))
+		}
+		for i := 0; i < st.NumFields(); i++ {
+			mt, isMap := st.Field(i).Type().Underlying().(*types.Map)
+			if !isMap {
+				continue
+			}
+			fp := p.sub(i)
+			if mv, _ := m.peek(fp).(*MapV); mv == nil {
+				m.mapSeq++
+				m.store(fp, &MapV{ID: m.mapSeq, KT: mt.Key(), VT: mt.Elem()})
+			}
+		}
+		return nil
+	}
 	intrinsics["verifFieldPtr"] = func(m *Machine, th *Thread, fn *ssa.Function, a []Value, site ssa.Instruction) Value {
 		p, st := m.fieldOf(a[0], m.strArg(a[1]))
 		return &IfaceV{T: types.NewPointer(st), V: p}
